@@ -217,5 +217,10 @@ int main() {
   util::FilePiece in(0, NULL, &std::cerr);
 
   ProcessGigaword(in, std::cout);
+  std::cout.flush();
+  if (!std::cout) {
+    std::cerr << "Error writing to stdout\n";
+    return 1;
+  }
   return 0;
 }
